@@ -15,7 +15,7 @@ PID = "C01"
 LEVEL = "exploration"
 RULE = ("ice in {Antarctic, Greenland, two custom exponential profiles} x source depth x receiver depth (11 depths either side of "
         "z_uniform, all ordered pairs) x horizontal separation {0, 0.01, 0.5, 5, 50, 200, 600, 1500, 3000} + {0.9, 0.99, 0.999} x the tracer's "
-        "own direct and indirect reach; Specialized tracer on all points, Basic tracer (dz in {0.25, 1, 4}) on the sub-lattice of legs "
+        "own direct and indirect reach (quick: Antarctic on the full lattice, the other profiles on every third source depth); Specialized tracer on all points, Basic tracer (dz in {0.25, 1, 4}) on the sub-lattice of legs "
         "spanning >= 20 dz; distinct_nontrivial = distinct (ice, tracer, geometry, solution) rays marched by the RK4 oracle")
 ASSUMPTIONS = ["RK4 eikonal marcher with 4000 steps (6000 thorough) is the reference; tolerances per conditioning class W/N/D as derived in DESIGN C01",
                "the true exponential profile is integrated also below z_uniform, where the tracer treats the ice as uniform by design "
@@ -45,6 +45,14 @@ def cases(tier, seed):
     for ice in ices:
         for z0 in DEPTHS:
             out.append({"ice": ice, "tracer": "specialized", "z_from": z0, "steps": 4000 if tier == "quick" else 6000})
+    if tier == "quick":
+        # the other profiles on a reduced source lattice: a tracer must use the index profile it was given
+        for ice in ("greenland", "custom_a", "custom_b"):
+            for z0 in DEPTHS[1::3]:
+                out.append({"ice": ice, "tracer": "specialized", "z_from": z0, "steps": 8000})
+        for ice in ("greenland",):
+            for z0 in DEPTHS[2::4]:
+                out.append({"ice": ice, "tracer": "basic", "dz": 1.0, "z_from": z0, "steps": 4000})
     basic_ice = ["antarctic"] if tier == "quick" else ["antarctic", "greenland"]
     for ice in basic_ice:
         for dz in ((1.0, 4.0) if tier == "quick" else (0.25, 1.0, 4.0)):
